@@ -1,3 +1,11 @@
 fn main() {
+    // The matrix composer (crate `matrixdef`) writes the Hydro source of its entries into
+    // `src/matrix.rs` *before* stageleft scans the crate. Only rewritten when the content changes.
+    println!("cargo::rerun-if-env-changed=E4_MATRIX_SEED");
+    let src = matrixdef::flows_source(matrixdef::seed_from_env());
+    let path = std::path::Path::new(&std::env::var("CARGO_MANIFEST_DIR").unwrap()).join("src/matrix.rs");
+    if std::fs::read_to_string(&path).ok().as_deref() != Some(src.as_str()) {
+        std::fs::write(&path, src).unwrap();
+    }
     stageleft_tool::gen_final!();
 }
